@@ -117,7 +117,7 @@ template <> struct RIO<Modular<Log16>> {
 // ------------------------------------------------------------------------------------------
 struct RingBase {
     std::string tag;
-    bool balanced = false, needs_prime = false, floating = false;
+    bool balanced = false, needs_prime = false, floating = false, needs_odd = false, c04_only = false;
     virtual ~RingBase() {}
     virtual Z maxCard() const = 0;      // < 0 : unbounded
     virtual Z minCard() const = 0;
@@ -276,6 +276,78 @@ template <class R> std::string RingH<R>::run2(const std::string& op, const std::
     return "NOOP";
 }
 
+// rings that are Z/p behind another representation (Montgomery form, Zech logarithms): exercised for
+// init / convert / constants only (C04); elements travel as residues through the ring's own init/convert
+template <class R> struct MakeRing;
+template <> struct MakeRing<Montgomery<int32_t>> { static Montgomery<int32_t>* make(const Z& m) { return new Montgomery<int32_t>((uint32_t)m.get_ui()); } };
+template <> struct MakeRing<GFqDom<int32_t>> { static GFqDom<int32_t>* make(const Z& m) { return new GFqDom<int32_t>((uint32_t)m.get_ui(), 1); } };
+
+template <class R> struct RingC04 : RingBase {
+    typedef typename R::Element E;
+    typedef typename R::Residu_t Res;
+    R* F = nullptr;
+    Z m;
+    ~RingC04() { delete F; }
+    Z maxCard() const override { Res r = R::maxCardinality(); return zparse(ElIO<Res>::to(r)); }
+    Z minCard() const override { Res r = R::minCardinality(); return zparse(ElIO<Res>::to(r)); }
+    Z elemLo() const override { return 0; }
+    Z elemHi() const override { return 0; }
+    bool setModulus(const Z& mm) override {
+        if (F && m == mm) return true;
+        if (needs_odd && mm % 2 == 0) return false;
+        if (needs_prime && mpz_probab_prime_p(mm.get_mpz_t(), 30) == 0) return false;
+        delete F; F = nullptr;
+        F = MakeRing<R>::make(mm);
+        m = mm;
+        return true;
+    }
+    std::string out(const E& e) { uint64_t v = 0; F->convert(v, e); return vp::hex_ull(v); }
+    template <class S> std::string do_init(const Z& x) {
+        S s;
+        if (!src_from<S>(s, x)) return "NOSRC";
+        E e; F->init(e);
+        F->init(e, s);
+        return out(e);
+    }
+    template <class T> std::string do_convert(const Z& ev) {
+        if (ev < 0 || ev >= m) return "NOELT";
+        E e; F->init(e, (uint64_t)ev.get_ui());
+        T t; F->convert(t, e);
+        return ElIO<T>::to(t);
+    }
+    std::string run(const std::string& op, const std::vector<Z>& a) override {
+        size_t n = a.size();
+        if (op == "consts" && n == 0) { E e; F->init(e); return out(F->zero) + " " + out(F->one) + " " + out(F->mOne) + " " + out(e); }
+        if (op == "card" && n == 0) { Res c = (Res)F->cardinality(), ch = (Res)F->characteristic(); return ElIO<Res>::to(c) + " " + ElIO<Res>::to(ch); }
+        if (n == 1 && op.compare(0, 5, "init_") == 0) {
+            std::string s = op.substr(5);
+            if (s == "s8") return do_init<int8_t>(a[0]);
+            if (s == "u8") return do_init<uint8_t>(a[0]);
+            if (s == "s16") return do_init<int16_t>(a[0]);
+            if (s == "u16") return do_init<uint16_t>(a[0]);
+            if (s == "s32") return do_init<int32_t>(a[0]);
+            if (s == "u32") return do_init<uint32_t>(a[0]);
+            if (s == "s64") return do_init<int64_t>(a[0]);
+            if (s == "u64") return do_init<uint64_t>(a[0]);
+            if (s == "f32") return do_init<float>(a[0]);
+            if (s == "f64") return do_init<double>(a[0]);
+            if (s == "Z") return do_init<Integer>(a[0]);
+            return "NOSRC";
+        }
+        if (n == 1 && op.compare(0, 8, "convert_") == 0) {
+            std::string s = op.substr(8);
+            if (s == "s64") return do_convert<int64_t>(a[0]);
+            if (s == "u64") return do_convert<uint64_t>(a[0]);
+            if (s == "f64") return do_convert<double>(a[0]);
+            if (s == "Z") return do_convert<Integer>(a[0]);
+            return "NODST";
+        }
+        return "NOOP";
+    }
+    std::vector<std::string> initSources() const override { return {"s8", "u8", "s16", "u16", "s32", "u32", "s64", "u64", "f32", "f64", "Z"}; }
+    std::vector<std::string> convertTargets() const override { return {"s64", "u64", "f64", "Z"}; }
+};
+
 // ------------------------------------------------------------------------------------------
 static std::vector<RingBase*> RINGS;
 template <class R> static void reg(const char* tag, bool balanced = false, bool prime = false, bool fl = false) {
@@ -302,6 +374,8 @@ static void register_all() {
     reg<Modular<RecInt::ruint<6>>>("ru6");
     reg<Modular<RecInt::ruint<7>, RecInt::ruint<8>>>("ru7ru8");
     reg<Modular<Log16>>("log16", false, true);
+    { auto* h = new RingC04<Montgomery<int32_t>>(); h->tag = "mg32"; h->needs_odd = true; h->c04_only = true; RINGS.push_back(h); }
+    { auto* h = new RingC04<GFqDom<int32_t>>(); h->tag = "gfq32"; h->needs_prime = true; h->c04_only = true; RINGS.push_back(h); }
 }
 
 static RingBase* find_ring(const std::string& tag) {
@@ -366,9 +440,10 @@ static std::vector<Z> moduli_for(RingBase* R, vp::Rng& g, bool thorough) {
     std::vector<Z> out;
     for (auto& v : s) {
         if (R->needs_prime) { Z p = prev_prime(v); if (p >= lo && p <= hi) out.push_back(p); }
+        else if (R->needs_odd) { Z o = (v % 2 == 0) ? Z(v - 1) : v; if (o >= 3 && o <= hi) out.push_back(o); }
         else out.push_back(v);
     }
-    if (R->needs_prime) { std::set<Z> u(out.begin(), out.end()); out.assign(u.begin(), u.end()); }
+    if (R->needs_prime || R->needs_odd) { std::set<Z> u(out.begin(), out.end()); out.assign(u.begin(), u.end()); }
     return out;
 }
 
@@ -510,7 +585,7 @@ int main(int argc, char** argv) {
     for (auto* R : RINGS) {
         if (only && R->tag != only) continue;
         vp::Rng g(seed * 0x9E3779B97F4A7C15ULL + fnv(R->tag));
-        if (prop == "C03") gen_c03(R, g, thorough);
+        if (prop == "C03") { if (!R->c04_only) gen_c03(R, g, thorough); }
         else gen_c04(R, g, thorough);
         fflush(stdout);
     }
